@@ -180,20 +180,87 @@ func roundtripCase(r *lib.Rng, w string, isLink bool, unsigned bool) lib.Case {
 	if len(sigs) == 0 && sigs == nil {
 		klass = "F18-unsigned-" + map[string]string{"L": "legacy", "D": "dsse"}[w]
 	}
-	pj, _ := json.Marshal(payload)
-	in := input{Kind: "roundtrip", Wrapper: w, Payload: pj, IsLink: isLink, Sigs: sigs}
-	if err != nil {
-		return lib.Case{Klass: klass, Input: lib.MustJSON(in), Impl: "DUMP-ERR", Oracle: "TT" + expectLoaded(w, payload, sigs)}
+	return roundtripOf(klass, "", d, err, w, payload, isLink, sigs)
+}
+
+// smaller variant of a payload (a step / the artifacts removed)
+func shrink(payload any) any {
+	switch t := payload.(type) {
+	case intoto.Link:
+		t.Products = nil
+		t.Materials = nil
+		t.ByProducts = nil
+		t.Command = nil
+		return t
+	case intoto.Layout:
+		if len(t.Steps) > 0 {
+			t.Steps = t.Steps[:len(t.Steps)-1]
+		}
+		t.Inspect = nil
+		t.Readme = ""
+		return t
 	}
-	text := d.Outer.JSON()
-	in.Text = text
-	lm, ml := runLoaders(text)
-	impl := "TT" + lm + "|" + ml
+	return payload
+}
+
+// Dump onto a path that already holds a file written by the library: the new
+// document must replace the old one whatever their lengths.
+func redumpCase(r *lib.Rng, w string, isLink bool, mode int) lib.Case {
+	big := genPayload(r, isLink, true)
+	if l, ok := big.(intoto.Link); ok {
+		if len(l.Products) == 0 {
+			l.Products = map[string]intoto.HashObj{"out/bin": genHashObj(r), "out/lib": genHashObj(r)}
+		}
+		if len(l.Command) == 0 {
+			l.Command = []string{"make", "all"}
+		}
+		big = l
+	}
+	small := shrink(big)
+	sigs := genSigs(r, w)
+	if w == "D" {
+		sigs = nil // the file is loaded exactly as Dump left it (no editing)
+	}
+	var first, second any
+	switch mode {
+	case 0: // longer previous content: re-dump after removing a step / the products
+		first, second = big, small
+	case 1: // equal
+		first, second = big, big
+	default: // shorter previous content
+		first, second = small, big
+	}
+	os.Remove(tmpFile("dump.json"))
+	d0, err := dumpDoc(w, first, sigs)
+	if err != nil {
+		panic(err)
+	}
+	d, err := dumpDoc(w, second, sigs)
+	rel := [...]string{"longer", "equal", "shorter"}[mode]
+	klass := "redump-over-" + rel + "-" + map[string]string{"L": "legacy", "D": "dsse"}[w]
+	desc := fmt.Sprintf("Dump onto a path holding a previously dumped %s document (%d bytes)", rel, len(d0.Raw))
+	return roundtripOf(klass, desc, d, err, w, second, isLink, sigs)
+}
+
+func roundtripOf(klass, desc string, d *doc, err error, w string, payload any, isLink bool, sigs []intoto.Signature) lib.Case {
+	pj, _ := json.Marshal(payload)
+	in := input{Kind: "roundtrip", Wrapper: w, Payload: pj, IsLink: isLink, Sigs: sigs, Desc: desc}
 	exp := expectLoaded(w, payload, sigs)
 	oracle := "TT" + exp + "|" + exp
 	if w == "D" {
 		oracle = "TT" + exp + "|ERR"
 	}
+	if err != nil {
+		return lib.Case{Klass: klass, Input: lib.MustJSON(in), Impl: "DUMP-ERR", Oracle: oracle}
+	}
+	// the loaders get the bytes Dump left on disk (the re-rendered tree only when signatures were injected)
+	text := d.Raw
+	if d.Edited {
+		text = d.Outer.JSON()
+	}
+	in.Text = text
+	lm, ml := runLoaders(text)
+	impl := "TT" + lm + "|" + ml
 	// model: its own dump, compared with the tree of the real file, then its own loaders
 	var sg []string
 	for _, s := range sigs {
@@ -203,12 +270,22 @@ func roundtripCase(r *lib.Rng, w string, isLink bool, unsigned bool) lib.Case {
 			sg = append(sg, "(GStruct [("+lib.CoqStr("keyid")+", GStr "+lib.CoqStr(s.KeyID)+"); ("+lib.CoqStr("sig")+", GStr "+lib.CoqStr(s.Sig)+"); ("+lib.CoqStr("cert")+", GStr "+lib.CoqStr(s.Certificate)+")])")
 		}
 	}
-	ot, p, _ := outerTerm(d.Outer)
 	wr := "Legacy"
+	if w == "D" {
+		wr = "DSSE"
+	}
+	if d.Outer == nil {
+		// the file is not even JSON: the model of the writer (dump) does not describe it; its own
+		// round trip succeeds, which differs from the implementation
+		model := "(let m := " + coqPayload(payload) + " in let e := encode (payload_shape m) (payload_val m) in" +
+			" let d := dump (fun _ : jv => " + lib.CoqStr("P") + ") " + wr + " m " + lib.CoqList(sg, "gv") +
+			" in show_bool false ++ show_bool false ++ show_res show_loaded (load_metadata (fun _ : str => Some e) (Some d)) ++ [124] ++ show_res show_loaded (metablock_load GNil (Some d)))"
+		return lib.Case{Klass: klass, Input: lib.MustJSON(in), Impl: impl, Oracle: oracle, CoqModel: model}
+	}
+	ot, p, _ := outerTerm(d.Outer)
 	innerCheck := "show_bool true"
 	tbl := "(fun _ : str => @None jv)"
 	if w == "D" {
-		wr = "DSSE"
 		if pn := d.Outer.Get("payload"); pn != nil && pn.Kind == KStr {
 			p = pn.S
 		}
@@ -358,6 +435,16 @@ func gen(out string, n int) {
 
 	for i := 0; i < 2+n/100; i++ {
 		w.Put(reloadCase(rr.Fork()))
+	}
+	// Dump onto an existing path: longer / equal / shorter previous content, both wrappers, link and layout
+	for k := 0; k < 1+n/1000; k++ {
+		for i := 0; i < 12; i++ {
+			wr := "L"
+			if i%2 == 1 {
+				wr = "D"
+			}
+			w.Put(redumpCase(rr.Fork(), wr, (i/2)%2 == 0, i/4))
+		}
 	}
 
 	// (3) validator
